@@ -425,7 +425,7 @@ func (s *state) formatRecursive(err error, isOutermost, withDetail, withDepth bo
 		//   the Format() method is likely to be calling FormatError()
 		//   to do its job and we want to avoid an infinite recursion.
 		if !isOutermost && cause == nil {
-			v.Format(s, 'v')
+			v.Format(innerState{s}, 'v')
 			if st, ok := err.(StackTraceProvider); ok {
 				// This is likely a leaf error from github/pkg/errors.
 				// The thing probably printed its stack trace on its own.
@@ -781,6 +781,23 @@ type formatEntry struct {
 func (e formatEntry) String() string {
 	return fmt.Sprintf("formatEntry{%T, %q, %q}", e.err, e.head, e.details)
 }
+
+// innerState is the fmt.State given to the Format() method of a leaf
+// error that is not the outermost error. It writes to the same
+// buffers, but hides the width, precision and flags of the enclosing
+// format directive: these apply to the complete output and are
+// handled once, by finishDisplay(). Only the '+' flag is passed
+// through, to request the detailed output.
+type innerState struct{ *state }
+
+// Width implements fmt.State.
+func (innerState) Width() (wid int, ok bool) { return 0, false }
+
+// Precision implements fmt.State.
+func (innerState) Precision() (prec int, ok bool) { return 0, false }
+
+// Flag implements fmt.State.
+func (s innerState) Flag(c int) bool { return c == '+' && s.state.Flag(c) }
 
 // Write implements io.Writer.
 func (s *state) Write(b []byte) (n int, err error) {
